@@ -50,10 +50,17 @@ def _prefix_slice_of_param(t, pname="data"):
                 return any(_is_blankline_search(x) for x in t[2][1:])
         if c.endswith("::unwrap_or") or c.endswith("::unwrap_or_default"):
             return _prefix_slice_of_param(t[2][0], pname)
-    if t[0] == "field":
+    if t[0] in ("field", "downcast"):
         return _prefix_slice_of_param(t[1], pname)
+    if t[0] in ("ref", "deref"):
+        return _prefix_slice_of_param(t[2] if t[0] == "ref" else t[1], pname)
     if t[0] == "phi":
-        return all(_prefix_slice_of_param(x, pname) for x in t[1])
+        # `match data.get(..end) { Some(head) => head, None => data }` is `data.get(..end).unwrap_or(data)`: the whole input is the
+        # fallback of an out-of-range prefix, never the normal case
+        alts = [T.strip(x) for x in t[1]]
+        pref = [x for x in alts if _prefix_slice_of_param(x, pname)]
+        rest = [x for x in alts if x not in pref]
+        return bool(pref) and all(x[0] == "param" or (x[0] == "deref" and T.strip(x[1])[0] == "param") for x in rest)
     return False
 
 
@@ -103,7 +110,11 @@ def rule_R1(ctx):
                         hb = P.bodies[st[1]]
                         HS = T.Slicer(hb, P)
                         rets = TB.return_sites(hb, P)
-                        ok = bool(rets) and all(_prefix_slice_of_param(term) or T.strip(term)[0] == "param" and False for (_, _, term, _c) in rets) and \
+                        # every exit returns the prefix up to the blank line; the whole input only as the fallback arm of that prefix
+                        # (`match data.get(..end) { Some(h) => h, None => data }` = `data.get(..end).unwrap_or(data)`)
+                        pref_ = [term for (_, _, term, _c) in rets if _prefix_slice_of_param(term)]
+                        rest_ = [T.strip(term) for (_, _, term, _c) in rets if not _prefix_slice_of_param(term)]
+                        ok = bool(pref_) and all(x[0] == "param" for x in rest_) and len(rest_) <= 1 and \
                             any(_is_blankline_search(term) for (_, _, term, _c) in rets)
                         if ok and hb.path not in seen_helpers:
                             seen_helpers.add(hb.path)
